@@ -1794,6 +1794,293 @@ def _has_elements(recipe):
     return True
 
 
+
+# ------------------------------------------------------------------------------------------
+# kind: arrhist  (history space: caller-owned arrays kept BY REFERENCE by documentation)
+#
+# Array / matrix weightings compare by identity of the stored array ("identical array"), i.e. the
+# object keeps the caller's array.  History alphabet: hash(A), hash(B), in-place update of the
+# shared array by its owner.  After EVERY history the clauses of the statement are re-checked on
+# the SAME objects: A == B (the array is still the identical object) must imply
+# hash(A) == hash(B), and a fresh object built from the same array must be equal to and hash
+# like the old ones.  (That the hash follows the contents is not judged.)
+
+def _run_arrhist(cfg):
+    tier = cfg['tier']
+    recs, names = _universe(tier)
+    recipe = recs[names.index(cfg['row'])]
+    used = M.arrays_used(recipe)
+    rep = Report()
+    ops = ['hash(A)', 'hash(B)', 'w *= 2']
+    depth = 4 if tier == 'thorough' else 3
+    tag = '(after in-place update of the shared array)'
+    for n in range(1, depth + 1):
+        for seq in itertools.product(ops, repeat=n):
+            if 'w *= 2' not in seq:
+                continue                        # no update: covered by the eq states
+            env = Env()
+            A = build(recipe, env)
+            B = build(recipe, env)
+            for op in seq:
+                if op == 'hash(A)':
+                    _try(lambda: hash(A))
+                elif op == 'hash(B)':
+                    _try(lambda: hash(B))
+                else:
+                    for name in used:
+                        env.arrays[name] *= 2.0
+            C = build(recipe, env)              # fresh object from the same (updated) array
+            lab = 'history %s on A, B = two builds of %s sharing %s' % (list(seq), cfg['row'],
+                                                                         used)
+            for (x, y, lx, ly) in ((A, B, 'A', 'B'), (A, C, 'A', 'fresh C'),
+                                   (B, C, 'B', 'fresh C')):
+                rep.evals += 1
+                e1, e2 = _eq(x, y), _eq(y, x)
+                if e1 is not True or e2 is not True:
+                    p, q = _descend(x, y, lambda u, v: _eq(u, v) is not True)
+                    rep.bad('eq:' + _pair_site(p, q) + tag, 'objects_sharing_the_array_unequal',
+                            '%s: (%s == %s) gives %s / %s' % (lab, lx, ly, e1, e2))
+                    continue
+                s1, h1 = _try(lambda: hash(x))
+                s2, h2 = _try(lambda: hash(y))
+                if s1 == 'exc' or s2 == 'exc':
+                    continue                    # reported by the eq states
+                if h1 != h2:
+                    p, q = _descend(x, y, lambda u, v: _eq(u, v) is True
+                                    and _hash(u) is not None and _hash(v) is not None
+                                    and _hash(u) != _hash(v))
+                    rep.bad('hash:' + _pair_site(p, q) + tag, 'equal_but_hash_differs',
+                            '%s: %s == %s but hash(%s) != hash(%s)' % (lab, lx, ly, lx, ly))
+            rep.sigs.add('arrhist:%s:%d' % (_cls(A), n))
+    return rep.result()
+
+
+# ------------------------------------------------------------------------------------------
+# kind: ctorarg  (history space: constructor arguments overwritten in place after construction)
+#
+# Every array-valued constructor argument is handed over as a float64 / int64 / float32 ndarray
+# or as a list which the driver OVERWRITES IN PLACE after construction (the caller re-uses his
+# buffers).  The object built before must not change: its eq / hash / contains / element clauses
+# are compared with those of an object built from fresh copies of the original values, and (mode
+# 'observed') with a snapshot taken on the same object before the overwrite.  Arguments that are
+# kept by reference by documentation (the ndarray of an array weighting) are not in this block
+# but in `arrhist`.
+
+def _pts(*rows):
+    return [np.array(r, dtype=float) for r in rows]
+
+
+def _ctor_routes():
+    """name -> (args, build(args), probes).  args: list of (argname, values, 'float'|'int')."""
+    r2 = odl.rn(2)
+    return {
+        'IntervalProd(min_pt, max_pt)': (
+            [('min_pt', [0.0, 0.5], 'float'), ('max_pt', [1.0, 2.0], 'float')],
+            lambda a: odl.IntervalProd(a[0], a[1]),
+            _pts([0.0, 0.5], [1.0, 2.0], [0.5, 1.0], [1.5, 2.5], [0.5, 2.25], [-0.5, 1.0])),
+        'RectGrid(vec0, vec1)': (
+            [('vec0', [0.0, 0.5, 1.0], 'float'), ('vec1', [0.0, 1.0], 'float')],
+            lambda a: odl.RectGrid(a[0], a[1]),
+            _pts([0.0, 0.0], [0.5, 1.0], [1.0, 1.0], [1.5, 1.0], [1.0, 2.0], [0.25, 0.0])),
+        'uniform_grid(min_pt, max_pt, shape)': (
+            [('min_pt', [0.0, 0.0], 'float'), ('max_pt', [1.0, 2.0], 'float'),
+             ('shape', [3, 2], 'int')],
+            lambda a: odl.uniform_grid(a[0], a[1], a[2]),
+            _pts([0.0, 0.0], [0.5, 2.0], [1.0, 1.0], [1.0, 3.0], [2.0, 3.0])),
+        'uniform_partition(min_pt, max_pt, shape)': (
+            [('min_pt', [0.0, 0.0], 'float'), ('max_pt', [1.0, 2.0], 'float'),
+             ('shape', [2, 4], 'int')],
+            lambda a: odl.uniform_partition(a[0], a[1], a[2]), None),
+        'uniform_partition(min_pt, max_pt, shape, nodes_on_bdry=True)': (
+            [('min_pt', [0.0, 0.0], 'float'), ('max_pt', [1.0, 2.0], 'float'),
+             ('shape', [2, 3], 'int')],
+            lambda a: odl.uniform_partition(a[0], a[1], a[2], nodes_on_bdry=True), None),
+        'uniform_partition(min_pt, max_pt, cell_sides=)': (
+            [('min_pt', [0.0, 0.0], 'float'), ('max_pt', [1.0, 2.0], 'float'),
+             ('cell_sides', [0.5, 0.5], 'float0')],
+            lambda a: odl.uniform_partition(a[0], a[1], cell_sides=a[2]), None),
+        'uniform_partition_fromintv(IntervalProd(min_pt, max_pt), shape)': (
+            [('min_pt', [0.0, 0.0], 'float'), ('max_pt', [1.0, 2.0], 'float'),
+             ('shape', [2, 4], 'int')],
+            lambda a: odl.uniform_partition_fromintv(odl.IntervalProd(a[0], a[1]), a[2]), None),
+        'nonuniform_partition(vec0, vec1, min_pt=, max_pt=)': (
+            [('vec0', [0.0, 0.5, 2.0], 'float'), ('vec1', [0.0, 1.0], 'float'),
+             ('min_pt', [-0.5, -0.5], 'float'), ('max_pt', [2.5, 1.5], 'float')],
+            lambda a: odl.nonuniform_partition(a[0], a[1], min_pt=a[2], max_pt=a[3]), None),
+        'RectPartition(IntervalProd(min_pt, max_pt), RectGrid(vec))': (
+            [('min_pt', [0.0], 'float'), ('max_pt', [1.0], 'float'),
+             ('vec', [0.25, 0.75], 'float')],
+            lambda a: odl.RectPartition(odl.IntervalProd(a[0], a[1]), odl.RectGrid(a[2])), None),
+        'uniform_discr(min_pt, max_pt, shape)': (
+            [('min_pt', [0.0, 0.0], 'float'), ('max_pt', [1.0, 2.0], 'float'),
+             ('shape', [2, 4], 'int')],
+            lambda a: odl.uniform_discr(a[0], a[1], a[2]), None),
+        'uniform_discr_fromintv(IntervalProd(min_pt, max_pt), shape)': (
+            [('min_pt', [0.0], 'float'), ('max_pt', [1.0], 'float'), ('shape', [2], 'int')],
+            lambda a: odl.uniform_discr_fromintv(odl.IntervalProd(a[0], a[1]), a[2]), None),
+        'DiscretizedSpace(nonuniform_partition(vec, min_pt=, max_pt=), rn(shape))': (
+            [('vec', [0.0, 0.5, 2.0], 'float'), ('min_pt', [-0.5], 'float'),
+             ('max_pt', [2.5], 'float'), ('shape', [3], 'int0')],
+            lambda a: odl.DiscretizedSpace(
+                odl.nonuniform_partition(a[0], min_pt=a[1], max_pt=a[2]), odl.rn(a[3])), None),
+        'rn(shape)': ([('shape', [2, 3], 'int')], lambda a: odl.rn(a[0]), None),
+        'tensor_space(shape, dtype=int)': (
+            [('shape', [2, 3], 'int')], lambda a: odl.tensor_space(a[0], dtype=int), None),
+        'rn(2, weighting=<list>)': (
+            [('weighting', [1.0, 2.0], 'list-only')],
+            lambda a: odl.rn(2, weighting=a[0]), None),
+        'uniform_discr(0, 1, 2, weighting=<list>)': (
+            [('weighting', [1.0, 2.0], 'list-only')],
+            lambda a: odl.uniform_discr(0, 1, 2, weighting=a[0]), None),
+        'ProductSpace(rn(2), rn(2), weighting=<list>)': (
+            [('weighting', [1.0, 2.0], 'list-only')],
+            lambda a: odl.ProductSpace(r2, r2, weighting=a[0]), None),
+        'ProductSpace(rn(2), 2, weighting=<list>)': (
+            [('weighting', [1.0, 2.0], 'list-only')],
+            lambda a: odl.ProductSpace(r2, 2, weighting=a[0]), None),
+    }
+
+
+CTOR_ROUTES = sorted(_ctor_routes())
+
+
+def _as_form(values, kind, form):
+    if form == 'list':
+        return list(values)
+    if kind.startswith('int'):
+        return np.array(values, dtype='int64' if form != 'f32' else 'int32')
+    return np.array(values, dtype='float64' if form == 'f64' else 'float32')
+
+
+def _overwrite(buf, kind):
+    """The caller re-uses his buffer: shift floats / shapes by one, in place."""
+    if isinstance(buf, list):
+        for i in range(len(buf)):
+            buf[i] = buf[i] + 1
+    else:
+        buf += 1
+
+
+def _shifted(values, kind):
+    return [v + 1 for v in values]
+
+
+def _space_vals(O, salt=0):
+    if isinstance(O, odl.ProductSpace):
+        return _pspace_values(O, salt)
+    return M.values(tuple(O.shape), O.dtype, salt)
+
+
+def _observe(O, R0, T0, probes, elems):
+    """The clauses of the statement on O, as a list of (name, value)."""
+    obs = []
+    obs.append(('O == reference', _eq(O, R0)))
+    obs.append(('reference == O', _eq(R0, O)))
+    obs.append(('hash(O) == hash(reference)', _hash(O) is not None and _hash(O) == _hash(R0)))
+    if T0 is not None:
+        obs.append(('O == other', _eq(O, T0)))
+        obs.append(('other == O', _eq(T0, O)))
+    if probes is not None:
+        obs.append(('membership of probe points',
+                    tuple(bool(_try(lambda p=p: p in O)[1] is True
+                               or _try(lambda p=p: bool(p in O))[1] is True) for p in probes)))
+    for lab, x in elems:
+        obs.append(('(%s) in O' % lab, _try(lambda: bool(x in O))[1]))
+        obs.append(('O.element(%s) is it' % lab, _try(lambda: O.element(x) is x)[1]))
+    return obs
+
+
+_CLAUSE_SYMPTOM = [('hash', 'hash_changed'), ('membership', 'membership_changed'),
+                   ('element', 'element_changed'), (' in O', 'membership_changed')]
+
+
+def _clause_symptom(name):
+    for key, sym in _CLAUSE_SYMPTOM:
+        if key in name:
+            return sym
+    return 'eq_changed'
+
+
+def _run_ctorarg(cfg):
+    route = cfg['route']
+    args, make, probes = _ctor_routes()[route]
+    rep = Report()
+    site = 'ctorarg:' + route
+    is_space = None
+    forms_all = ['f64', 'list', 'f32']
+    nargs = len(args)
+    subsets = [(i,) for i in range(nargs)]
+    if nargs > 1:
+        subsets.append(tuple(range(nargs)))
+    for form in forms_all:
+        for sub in subsets:
+            for mode in ('observed', 'unobserved'):
+                # arguments: the overwritten ones in the form under test, the others as lists
+                def form_of(i):
+                    kind = args[i][2]
+                    if kind == 'list-only':
+                        return 'list'
+                    return form if i in sub else 'list'
+                if any(args[i][2] == 'list-only' for i in sub) and form != 'list':
+                    continue        # an ndarray of weights is kept by reference (documented)
+                base = [list(a[1]) for a in args]
+                st, R0 = _try(lambda: make([_as_form(base[i], args[i][2], 'list')
+                                            for i in range(nargs)]))
+                if st == 'exc':
+                    rep.skipped += 1
+                    continue
+                R1 = make([_as_form(base[i], args[i][2], 'list') for i in range(nargs)])
+                after = [(_shifted(base[i], args[i][2]) if i in sub else base[i])
+                         for i in range(nargs)]
+                T0 = _try(lambda: make([_as_form(after[i], args[i][2], 'list')
+                                        for i in range(nargs)]))
+                T0 = T0[1] if T0[0] == 'ok' else None
+                bufs = [_as_form(base[i], args[i][2], form_of(i)) for i in range(nargs)]
+                st, O = _try(lambda: make(bufs))
+                if st == 'exc':
+                    rep.skipped += 1        # this form of argument is not accepted
+                    continue
+                is_space = isinstance(O, LinearSpace)
+                elems, elems1 = [], []
+                if is_space:
+                    y = R0.element(_space_vals(R0))
+                    elems.append(('element of the reference', y))
+                    elems1.append(('element of the reference', y))
+                    if mode == 'observed':
+                        x = O.element(_space_vals(O, 1))
+                        x1 = R1.element(_space_vals(R1, 1))
+                        elems.append(('own element created before', x))
+                        elems1.append(('own element created before', x1))
+                before = _observe(O, R0, T0, probes, elems) if mode == 'observed' else None
+                h_before = _hash(O) if mode == 'observed' else None
+                for i in sub:
+                    _overwrite(bufs[i], args[i][2])
+                got = _observe(O, R0, T0, probes, elems)
+                want = _observe(R1, R0, T0, probes, elems1)
+                rep.evals += len(got)
+                lab = ('%s with %s as %s, overwritten in place after construction (%s)'
+                       % (route, '+'.join(args[i][0] for i in sub),
+                          {'f64': 'float64/int64 ndarray', 'f32': 'float32/int32 ndarray',
+                           'list': 'list'}[form], mode))
+                for (name, g), (_, w) in zip(got, want):
+                    if g != w:
+                        rep.bad(site, _clause_symptom(name),
+                                '%s: "%s" is %r, for an object built from fresh copies of the '
+                                'original values it is %r' % (lab, name, g, w))
+                if before is not None:
+                    for (name, g), (_, b) in zip(got, before):
+                        if g != b:
+                            rep.bad(site, _clause_symptom(name),
+                                    '%s: "%s" was %r before the overwrite and is %r after'
+                                    % (lab, name, b, g))
+                    rep.evals += 1
+                    if h_before is not None and _hash(O) != h_before:
+                        rep.bad(site, 'hash_changed',
+                                '%s: hash(O) changed during the lifetime of O' % lab)
+                rep.sigs.add('ctorarg:%s:%s:%s' % (_cls(O), form, mode))
+    return rep.result()
+
+
 # ------------------------------------------------------------------------------------------
 # engine interface
 
@@ -1812,11 +2099,17 @@ def configs(tier):
         for r, n in zip(recs, names):
             if M.family(r) == 'space':
                 cfgs.append({'kind': kind, 'tier': tier, 'row': n})
+    for r, n in zip(recs, names):
+        if M.arrays_used(r) and r[:2] != ('W', 'MatBs'):
+            cfgs.append({'kind': 'arrhist', 'tier': tier, 'row': n})
+    for route in CTOR_ROUTES:
+        cfgs.append({'kind': 'ctorarg', 'tier': tier, 'route': route})
     return cfgs
 
 
 _RUN = {'eq': _run_eq, 'triple': _run_triple, 'member': _run_member, 'element': _run_element,
-        'derived': _run_derived, 'index': _run_index, 'setelem': _run_setelem}
+        'derived': _run_derived, 'index': _run_index, 'setelem': _run_setelem,
+        'arrhist': _run_arrhist, 'ctorarg': _run_ctorarg}
 
 
 def run(cfg):
@@ -1858,10 +2151,19 @@ def meta(tier):
                 'hash) and all triples through the clique test on the equality graph; every '
                 'element against every space; element(inp) over the whole input alphabet; '
                 'astype over all dtypes and all call sequences of the cached counterparts up to '
-                'the depth; every index expression of the alphabet.  Reference: documented '
+                'the depth; every index expression of the alphabet; history blocks: all '
+                'sequences over {hash(A), hash(B), in-place update of the shared weight array} '
+                'up to the depth on objects that keep caller-owned arrays by reference '
+                '(arrhist), and every array-valued constructor argument handed over as float64 / '
+                'float32 / int ndarray or list and overwritten in place after construction, '
+                'singly and all together, with and without prior observation (ctorarg).  '
+                'Reference: documented '
                 'identities and naive NumPy selections (mc/ref/c20_model.py). distinct = distinct '
                 '(operation, class, outcome class, executed-line signature).',
         'bounds': {'universe_recipes': len(recs), 'nodes': 2 * len(recs), 'families': fam,
+                   'one_field_variant_pairs': len(M.one_field_variants(tier == 'thorough')),
+                   'array_history_depth': 4 if tier == 'thorough' else 3,
+                   'constructor_routes': CTOR_ROUTES,
                    'ordered_pairs': (2 * len(recs)) ** 2,
                    'counterpart_call_sequences': 'ops {real_space, complex_space, astype f32/c64/'
                                                  'f64/c128}: all sequences of length %d applied '
